@@ -436,6 +436,7 @@ func (s *Session) Settle() {
 		if end <= s.delivered {
 			if t, ok := s.extWait[id]; ok {
 				s.S.AwaitExt(t)
+				s.S.Log.Ev(t.ID, "ext-return", "#"+id, "")
 				delete(s.extWait, id)
 			}
 			delete(s.extFrame, id)
